@@ -6,6 +6,7 @@ package rulespec
 
 import (
 	"fmt"
+	"math"
 	"reflect"
 
 	cb "github.com/alibaba/sentinel-golang/core/circuitbreaker"
@@ -29,7 +30,7 @@ const (
 var ModuleName = []string{"flow", "isolation", "hotspot", "circuitbreaker", "system", "outlier"}
 
 // NumVariants per module (0,1 valid; others invalid).
-var NumVariants = []int{12, 5, 10, 10, 5, 6}
+var NumVariants = []int{14, 5, 10, 10, 5, 6}
 
 type RS struct {
 	M   int  `json:"m"`
@@ -116,6 +117,11 @@ func BuildFlow(r RS) *flow.Rule {
 	case 11:
 		x.TokenCalculateStrategy = flow.MemoryAdaptive
 		x.LowMemUsageThreshold, x.HighMemUsageThreshold, x.MemLowWaterMarkBytes, x.MemHighWaterMarkBytes = 2, 1, 4096, 2048
+	case 12:
+		// not a number: compares false with everything, a rule with it limits nothing
+		x.Threshold = math.NaN()
+	case 13:
+		x.Threshold = math.Inf(1)
 	}
 	if r.Var <= 1 {
 		switch r.Hid {
